@@ -1203,6 +1203,26 @@ func binDeterminism(o corrOpts, sum *res.Summary, r *rng.R, bin string) {
 			raceDir := scratchDir("racemod")
 			defer os.RemoveAll(raceDir)
 			genModule(raceDir, r, 24, func(i int) gen.Options { return gen.Options{Ignores: true, TestFiles: i%4 == 0} })
+			// … and @implements scenarios (imports in source order, several checkers of a package reading its imports)
+			{
+				var specs []genSpec
+				for i := 0; i < 8; i++ {
+					specs = append(specs, genSpec{seed: r.U64() % 1000000007, o: gen.Options{Root: fmt.Sprintf("i%d", i)}, impl: true})
+				}
+				mods := map[string]*gen.Module{}
+				for _, sp := range specs {
+					mods[sp.o.Root] = gen.GenerateImpl(sp.seed, sp.o.Root)
+				}
+				for _, m := range mods {
+					for name, content := range m.Files {
+						if name == "go.mod" {
+							continue
+						}
+						os.MkdirAll(filepath.Dir(filepath.Join(raceDir, name)), 0o755)
+						os.WriteFile(filepath.Join(raceDir, name), []byte(content), 0o644)
+					}
+				}
+			}
 			for i := 0; i < raceRuns; i++ {
 				d := raceDir
 				if i == raceRuns-1 {
